@@ -254,7 +254,7 @@ class Interp:
         def nofork(c):
             if isinstance(c, bool):
                 return c
-            cc = z3.simplify(zbool(c))
+            cc = V.ssimplify(zbool(c))
             if z3.is_true(cc): return True
             if z3.is_false(cc): return False
             if forced:
@@ -339,8 +339,8 @@ class Interp:
             if isinstance(a, list) and isinstance(b, list): return a + b
             if isinstance(a, bytes) and isinstance(b, bytes): return a + b
             if isinstance(a, (Seq, bytes, list)) and isinstance(b, (Seq, bytes, list)):
-                ka = 'bytes' if isinstance(a, bytes) or (isinstance(a, Seq) and a.kind == 'bytes') else 'list'
-                kb = 'bytes' if isinstance(b, bytes) or (isinstance(b, Seq) and b.kind == 'bytes') else 'list'
+                ka = 'bytes' if isinstance(a, bytes) or (isinstance(a, Seq) and a.is_bytes()) else 'list'
+                kb = 'bytes' if isinstance(b, bytes) or (isinstance(b, Seq) and b.is_bytes()) else 'list'
                 if ka != kb:
                     raise Raised('TypeError')
                 return V.seq_concat(a, b)
@@ -416,8 +416,23 @@ class Interp:
                     raise Raised('TypeError')
                 except ValueError:
                     raise Raised('ValueError')
-            # symbolic / object arguments: check arity and %d-with-None statically
             import re
+            # '%02x%02x' % (ints): hex text of byte values (ASCII framer) -> symbolic text
+            if re.fullmatch(r'(%02[xX])+', fmt) and not isinstance(args, dict) and all(V._isnum(x) for x in tup) and len(tup) == fmt.count('%'):
+                codes = []
+                ok = True
+                for spec_, x in zip(re.findall(r'%02([xX])', fmt), tup):
+                    xz = zint(x)
+                    if not self.st.decide(z3.And(xz >= 0, xz < 256)):
+                        ok = False
+                        break
+                    base = 87 if spec_ == 'x' else 55
+                    for nib in (xz / 16, xz % 16):
+                        codes.append(mk(z3.If(nib < 10, nib + 48, nib + base)))
+                if ok:
+                    return Seq('str', None, items=codes)
+                return Opaque('str')
+            # symbolic / object arguments: check arity and %d-with-None statically
             specs = re.findall(r'%(?:\([^)]*\))?[#0\- +]*(?:\*|\d+)?(?:\.(?:\*|\d+))?[hlL]?([diouxXeEfFgGcrsa%])', fmt)
             specs = [s for s in specs if s != '%']
             if not isinstance(args, dict) and not isinstance(args, Opaque):
@@ -760,6 +775,14 @@ class Interp:
                 except IndexError:
                     raise Raised('IndexError')
             if isinstance(idx, (SInt, SBool)):
+                if isinstance(base, (list, tuple)) and len(base) > 32 and all(isinstance(x, int) for x in base):
+                    # constant table indexed symbolically (CRC table): case split on the index, one path per entry
+                    n = len(base)
+                    iz = zint(idx)
+                    if self.st.provable(z3.And(iz >= 0, iz < n)):
+                        k = self.st.branch(n, 'table-index')
+                        self.st.assume(V._cmp('==', idx, k))
+                        return base[k]
                 s = to_seq(list(base) if isinstance(base, (tuple, str)) else base)
                 return self.seq_index(s, idx)
             raise Raised('TypeError')
@@ -1622,7 +1645,7 @@ class Interp:
             s = to_seq(v)
             if isinstance(v, list) and any(not V._isnum(x) for x in v):
                 raise Unsupported('havoc of a list of non-numeric values (%s)' % hint)
-            r = Seq.fresh(s.kind, hint, elem=s.elem, lo=0 if s.kind == 'bytes' else None, hi=256 if s.kind == 'bytes' else None)
+            r = Seq.fresh(s.kind, hint, elem=s.elem, lo=0 if s.is_bytes() else None, hi=256 if s.is_bytes() else None)
             return r
         if v is None:
             return None
@@ -1796,13 +1819,19 @@ class IterV:
 
 
 class LoopView:
-    """what a loop invariant may look at: the locals of the interpreted frame (view.name)"""
+    """what a loop invariant may look at: the locals of the interpreted frame (view.name); view.E = the E api"""
     def __init__(self, interp, fr):
         object.__setattr__(self, '_i', interp)
         object.__setattr__(self, '_fr', fr)
 
     def __getattr__(self, name):
         fr = object.__getattribute__(self, '_fr')
+        if name == 'E':
+            from .sym import SymE
+            it = object.__getattribute__(self, '_i')
+            E = SymE(it.st, it.cfg)
+            E.I = it
+            return E
         nm = mangle(name, fr.cls)
         if nm in fr.env:
             return fr.env[nm]
